@@ -9,7 +9,8 @@ class C01(CacheProp):
     rule = ("gate-controlled histories over key sets engineered (Config.KeyToHash) so that >= 40% of the keys share their "
             "primary hash with another key (conflict hashes equal, different, or zero), with evictions, drops, TTL expiry, "
             "Clear and Close; every Get result compared with the machine and checked against the table value -> key it was "
-            "Set under; non-trivial = an eviction, rejection or blocked call occurred")
+            "Set under; non-trivial = an eviction, rejection or blocked call occurred"
+            " Plus, as search only: the concurrent stress harness (2..64 goroutines, all calls) with the oracle 'a Get never returns a value that was Set under another key'.")
 
     def oracle(self, case, il):
         fails = []
